@@ -858,7 +858,7 @@ func init() {
 var bareKeyJustified = map[string]string{
 	"yang.(*Modules).add: m":       "the module table itself (ms.Modules or ms.SubModules): every module is filed under name@revision and the bare name is an alias for the newest revision (REV.ORDER decides the re-pointing)",
 	"yang.FindGrouping: seen":      "visited set of a search over the include graph: a second visit of a same-named submodule would search the same groupings again; skipping it loses nothing",
-	"yang.(*Modules).Process: dvP": "the module table holds every module under two keys (name and name@revision); the set makes each module's deviations apply once, and the sorted visit makes the bare-name alias — the newest revision — the one that is applied",
+	"yang.(*Modules).Process: visited set of the deviation pass": "the module table holds every module under two keys (name and name@revision); the set makes each module's deviations apply once, and the sorted visit makes the bare-name alias — the newest revision — the one that is applied",
 }
 
 func ruleRevBareKey(c *Ctx) []Obligation {
@@ -961,6 +961,20 @@ func ruleRevBareKey(c *Ctx) []Obligation {
 				// named after the function it lives in; if that is a private helper, after the first function up the
 				// inline chain for which a reason is recorded (the reason was written for the un-extracted code)
 				name = c.FnName(rootFn(fn)) + ": " + ln
+				// the visited set of the deviation pass is recognised by what it does, not by its name: a set
+				// whose absent-test guards the call that applies a module's deviations
+				if mk, isMk := m.(*ssa.MakeMap); isMk && isSetInsert(in.(*ssa.MapUpdate)) {
+					if apply := c.Fn("yang.(*Entry).ApplyDeviate"); apply != nil {
+						for _, ci := range c.callsTo(fn, apply) {
+							site := ci.(ssa.Instruction)
+							eachInstr(fn, func(in2 ssa.Instruction) {
+								if l, okl := in2.(*ssa.Lookup); okl && l.X == ssa.Value(mk) && l.Block().Dominates(site.Block()) && lookupAbsentGuards(l, site) {
+									name = c.FnName(rootFn(fn)) + ": visited set of the deviation pass"
+								}
+							})
+						}
+					}
+				}
 				if _, has := bareKeyJustified[name]; !has {
 					for f2, d := rootFn(fn), 0; d < 5; d++ {
 						h := c.helpers[f2]
